@@ -35,6 +35,14 @@ VARIABLES
 pvars == <<cfgs, pushedV, poppedV, open, used, resets, bad>>
 
 EmptyCfg == [s |-> <<>>, p |-> <<>>]
+
+\* Guard against a blow-up of the configuration set (many concurrent pushes whose order nothing
+\* has observed yet): beyond MaxCfgs configurations the run is given up -- condition "Overflow",
+\* which is not a verdict -- and linearizability is no longer tracked until the next reset (the
+\* conservation conditions still are).  The harness bounds the pushes per concurrent history so
+\* that this does not happen.
+MaxCfgs == 4000
+Ovf == "Overflow" \in bad
 Ops == {"push", "pushfront", "pop", "peek", "peektail", "isempty", "reset"}
 
 PInit ==
@@ -87,7 +95,8 @@ PCall(i, op, arg) ==
     IN
     /\ bad' = bad \cup (IF good THEN {} ELSE {"Harness"})
     /\ IF good
-       THEN /\ cfgs' = {[s |-> c.s, p |-> (i :> [op |-> op, arg |-> arg, lin |-> FALSE, res |-> 0, ok |-> TRUE]) @@ c.p] : c \in cfgs}
+       THEN /\ cfgs' = IF Ovf THEN cfgs ELSE
+                      {[s |-> c.s, p |-> (i :> [op |-> op, arg |-> arg, lin |-> FALSE, res |-> 0, ok |-> TRUE]) @@ c.p] : c \in cfgs}
             /\ open' = open \cup {i}
             /\ used' = used \cup {i}
             /\ pushedV' = IF isPush THEN pushedV \cup {arg} ELSE pushedV
@@ -100,13 +109,17 @@ PRet(i, op, res, ok) ==
     THEN /\ bad' = bad \cup {"Harness"}
          /\ UNCHANGED <<cfgs, pushedV, poppedV, open, used, resets>>
     ELSE
-    LET gotVal == op \in {"pop", "peek", "peektail"} /\ ok IN
-    /\ cfgs' = UNION {RetCfgs(c, i, res, ok) : c \in cfgs}
+    LET gotVal == op \in {"pop", "peek", "peektail"} /\ ok
+        nc == IF Ovf THEN cfgs ELSE UNION {RetCfgs(c, i, res, ok) : c \in cfgs}
+        big == Cardinality(nc) > MaxCfgs
+    IN
+    /\ cfgs' = IF big THEN {EmptyCfg} ELSE nc
     /\ open' = open \ {i}
     /\ poppedV' = IF op = "pop" /\ ok THEN poppedV \cup {res} ELSE poppedV
     /\ bad' = bad
         \cup (IF op = "pop" /\ ok /\ res \in poppedV THEN {"Dup"} ELSE {})
         \cup (IF gotVal /\ res \notin pushedV THEN {"Phantom"} ELSE {})
+        \cup (IF big THEN {"Overflow"} ELSE {})
     /\ UNCHANGED <<pushedV, used, resets>>
 
 \* A library call panicked (it never returns; whether it took effect is left open).  No
@@ -127,10 +140,10 @@ PDrained(complete, empty) ==
 Linearizable == cfgs # {}
 
 Safe_C12 == Linearizable /\ bad \cap {"Dup", "Phantom", "Lost", "Panic"} = {}
-NoHarnessError == bad \cap {"Harness", "Incomplete"} = {}
+NoHarnessError == bad \cap {"Harness", "Incomplete", "Overflow"} = {}
 
 Violated == (IF Linearizable THEN {} ELSE {"NotLinearizable"}) \cup bad
 
 PropertyOf == [NotLinearizable |-> "C12", Dup |-> "C12", Phantom |-> "C12", Lost |-> "C12", Panic |-> "C12",
-               Harness |-> "HARNESS", Incomplete |-> "HARNESS", Unexplained |-> "HARNESS"]
+               Harness |-> "HARNESS", Incomplete |-> "HARNESS", Overflow |-> "HARNESS", Unexplained |-> "HARNESS"]
 =============================================================================
